@@ -47,6 +47,20 @@ SPEC_LIMIT = 6000
 
 # ------------------------------------------------------------------ generation
 def _col(rng, card, zeros):
+    if zeros == "heavy":
+        # deterministic / sparse column: a random proper support, exact zeros elsewhere
+        k = 1 if rng.random() < 0.55 else rng.randint(1, card)
+        supp = rng.sample(range(card), k)
+        den = 8
+        while True:
+            cuts = sorted(rng.randint(0, den) for _ in range(k - 1))
+            parts = [b - a for a, b in zip([0] + cuts, cuts + [den])]
+            if all(x > 0 for x in parts):
+                break
+        col = [[0, den] for _ in range(card)]
+        for i, x in zip(supp, parts):
+            col[i] = [x, den]
+        return col
     den = rng.choice([8, 16, 64])
     while True:
         cuts = sorted(rng.randint(0, den) for _ in range(card - 1))
@@ -63,7 +77,7 @@ def _table(rng, card, pcards, zeros):
     return [cols[c][r] for r in range(card) for c in range(ncol)]  # flat row-major over [var] + parents
 
 
-def gen_template(rng, cls, nmax=3, cards=(2, 3), pe=None):
+def gen_template(rng, cls, nmax=3, cards=(2, 3), pe=None, zeros=None, need_non_interface=False):
     """cls: 'valid' (every name has an intra edge, heads = tails), 'iface' (heads != tails), 'nointra'"""
     for _ in range(10000):
         n = rng.randint(1, nmax)
@@ -91,15 +105,17 @@ def gen_template(rng, cls, nmax=3, cards=(2, 3), pe=None):
         rng.shuffle(intra)
         rng.shuffle(inter)
         card = [rng.choice(cards) for _ in range(n)]
-        zeros = rng.random() < 0.08
+        if need_non_interface and tails == set(range(n)):
+            continue
+        zeros_ = zeros if zeros is not None else (rng.random() < 0.08)
         cpds = []
         for v in range(n):
             p0 = [[u, 0] for u, w in intra if w == v]
             p1 = [[u, 1] for u, w in intra if w == v] + [[u, 0] for u, w in inter if w == v]
             rng.shuffle(p0)
             rng.shuffle(p1)
-            cpds.append({"var": [v, 0], "pars": p0, "vals": _table(rng, card[v], [card[u] for u, _ in p0], zeros)})
-            cpds.append({"var": [v, 1], "pars": p1, "vals": _table(rng, card[v], [card[u] for u, _ in p1], zeros)})
+            cpds.append({"var": [v, 0], "pars": p0, "vals": _table(rng, card[v], [card[u] for u, _ in p0], zeros_)})
+            cpds.append({"var": [v, 1], "pars": p1, "vals": _table(rng, card[v], [card[u] for u, _ in p1], zeros_)})
         rng.shuffle(cpds)
         return {"n": n, "card": card, "intra": intra, "inter": inter, "cpds": cpds}
     raise RuntimeError("no template")
@@ -209,6 +225,35 @@ def cases(tier, seed):
         t = gen_template(rng, rng.choice(["valid", "iface", "nointra"]))
         out.append({"kind": "constbn", "t": t, "k": rng.choice([0, 0, 1, 3]), "style": rng.choice(["str", "int"]),
                     "named": rng.random() < 0.25, "isolated": rng.random() < 0.15})
+    # zero-heavy smoothing: deterministic/sparse CPDs, backward_inference/query over >= 2 slices, evidence on
+    # non-interface variables (it rules out interface states: the forward potential gets exact zeros)
+    n_z = 90 if tier == "quick" else 800
+    for i in range(n_z):
+        t = gen_template(rng, "valid", cards=(2, 2, 3), zeros="heavy", need_non_interface=True)
+        tails_ = set(u for u, _ in t["inter"])
+        T = rng.randint(1, 3)
+        slot = rng.randint(0, T)
+        qs = [[rng.randrange(t["n"]), slot]]
+        pool = [[v, s_] for v in range(t["n"]) for s_ in range(T + 1) if v not in tails_ and [v, s_] not in qs]
+        evv = rng.sample(pool, min(len(pool), rng.choice([1, 2, 2, 3])))
+        if not any(x[1] == T for x in evv) and qs[0][1] != T:
+            last = [x for x in pool if x[1] == T]
+            if last:
+                evv.append(rng.choice(last))
+        # states drawn by forward sampling would be best; a random state is possible often enough, and the
+        # impossible ones are reported as skipped (zero-probability-evidence)
+        out.append({"kind": "infer", "cls": "valid", "t": t, "qs": qs,
+                    "ev": [[x, rng.randrange(t["card"][x[0]])] for x in evv],
+                    "mode": rng.choice(["bwd", "query"]), "style": rng.choice(["str", "int"]),
+                    "named": False, "use_init": False, "zeros": True})
+    # get_constant_bn sessions: the returned network is the caller's; mutating it must not leak into later calls
+    n_cs = 60 if tier == "quick" else 500
+    for i in range(n_cs):
+        t = gen_template(rng, rng.choice(["valid", "valid", "iface"]))
+        out.append({"kind": "constbn_session", "t": t, "k": rng.choice([0, 0, 1, 2]),
+                    "mutation": rng.choice(["replace_cpd", "remove_node", "add_node", "remove_cpds", "write_values"]),
+                    "target": rng.randrange(2 * t["n"]), "simulate": rng.random() < 0.5,
+                    "style": rng.choice(["str", "int"]), "named": False})
     # sessions: one engine object, several questions (cross-query state would show here)
     n_s = 70 if tier == "quick" else 600
     for i in range(n_s):
@@ -500,6 +545,10 @@ def run_infer(case, drv, shared=None):
             "iface-evidence=%s" % iev, "ninter=%d" % len(t["inter"]), "maxcard=%d" % max(card)]
     if case.get("named"):
         tags.append("named-states")
+    if case.get("zeros"):
+        nz = sum(1 for c in t["cpds"] for a, _ in c["vals"] if a == 0)
+        tot = sum(len(c["vals"]) for c in t["cpds"])
+        tags += ["zero-heavy", "zeros=%d%%" % (10 * int(10 * nz / tot))]
     key = template_key(case)
 
     # --- pgmpy
@@ -631,18 +680,29 @@ def run_infer(case, drv, shared=None):
         return ok(key=key, tags=tags + ["agree"])
 
     # --- class: valid
-    if impl[0] != "ok" or model[0] != "ok":
+    # model error 6: the backward pass divides a non-zero message entry by a zero potential entry (numpy: inf/nan);
+    # the model gives no value there, pgmpy's answer is then judged against the unrolled network only
+    model_nonfinite = model == ("err", 6)
+    if impl[0] != "ok" or (model[0] != "ok" and not model_nonfinite):
         if model == ("err", 5):
             return ok(nontrivial=False, key=key, tags=tags + ["zero-probability-evidence"])
         return bad("impl!=model", {"impl": str(impl)[:300], "model": str(model)[:300]}, key=key, tags=tags)
     iv = impl_vals()
-    if has_nan([x for v in iv.values() for x in v]):
-        return ok(nontrivial=False, key=key, tags=tags + ["nan"])
-    if not agrees(iv, model[1]):
-        return bad("impl!=model", {"qs": qs, "ev": ev, "mode": mode, "impl": str(iv),
-                                   "model": str({k: [float(x) for x in v] for k, v in model[1].items()})},
-                   key=key, tags=tags)
-    if not agrees(iv, truth):
+    import math
+    nonfinite = any(not math.isfinite(x) for v in iv.values() for x in v)
+    if model_nonfinite:
+        tags.append("model-nonfinite-division")
+    else:
+        if nonfinite:
+            # the evidence has positive probability (checked above) and the model answers: NaN/inf is a wrong answer
+            return bad("impl-nan", {"qs": qs, "ev": ev, "mode": mode, "impl": str(iv),
+                                    "model": str({k: [float(x) for x in v] for k, v in model[1].items()})},
+                       key=key, tags=tags + ["nan"])
+        if not agrees(iv, model[1]):
+            return bad("impl!=model", {"qs": qs, "ev": ev, "mode": mode, "impl": str(iv),
+                                       "model": str({k: [float(x) for x in v] for k, v in model[1].items()})},
+                       key=key, tags=tags)
+    if nonfinite or not agrees(iv, truth):
         detail = {"intra": t["intra"], "inter": t["inter"], "qs": qs, "ev": ev, "mode": mode, "impl": str(iv),
                   "unrolled": str({k: [float(x) for x in v] for k, v in truth.items()})}
         qt = sorted(set(q[1] for q in qs))
@@ -757,6 +817,41 @@ def run_init(case, drv):
 
 
 # ------------------------------------------------------------------ get_constant_bn
+def _constbn_parse(case, sname):
+    a, b = sname.rsplit("_", 1)
+    pool = STR_NAMES if case.get("style", "str") == "str" else [str(x) for x in INT_NAMES]
+    return [pool.index(a), int(b)]
+
+
+def _constbn_check(case, bn, model, cpds, card, k, key, tags):
+    """bn (pgmpy's constant network) against the model's and against the template; None = fine"""
+    parse = lambda sname: _constbn_parse(case, sname)
+    iedges = sorted([parse(u), parse(v)] for u, v in bn.edges())
+    medges = sorted(model[1][0])
+    if iedges != medges:
+        return bad("impl!=model", {"edges_impl": iedges, "edges_model": medges}, key=key, tags=tags)
+    icp = []
+    for c in bn.cpds:
+        var = parse(c.variable)
+        pars = [parse(p) for p in c.variables[1:]]
+        nmz = [[state_code(case, v, lab) for lab in c.state_names[node]] for node, (v, _) in zip(c.variables, [var] + pars)]
+        icp.append({"var": var, "card": int(c.cardinality[0]), "pars": pars, "pcards": [int(x) for x in c.cardinality[1:]],
+                    "vals": [float(x) for x in c.values.ravel()], "names": nmz})
+    mcp = [cpd_from_model(w) for w in model[1][1]]
+    if len(icp) != len(mcp) or not all(same_cpd(a, b) for a, b in zip(icp, mcp)):
+        return bad("impl!=model", {"impl": str(icp)[:600], "model": str(mcp)[:600]}, key=key, tags=tags)
+    # property: the template's CPDs, unchanged (up to the slice offset)
+    src = [cpd_from_wire(wire_cpd(case, c, card)) for c in cpds]
+    for a, s0 in zip(icp, src):
+        expect = dict(s0, var=[s0["var"][0], s0["var"][1] + k], pars=[[u, x + k] for u, x in s0["pars"]])
+        if not same_meaning(dict(a, names=None), dict(expect, names=None)):
+            return bad("altered-cpd", {"impl": str(a)[:300], "expected": str(expect)[:300]}, key=key, tags=tags)
+        if a["names"] != expect["names"]:
+            return bad("labels", {"what": "get_constant_bn drops the state names", "var": a["var"]}, finding=F_NAMES,
+                       key=key, tags=tags + ["labels-dropped"])
+    return None
+
+
 def run_constbn(case, drv):
     t = case["t"]
     n, card, k = t["n"], t["card"], case["k"]
@@ -794,34 +889,9 @@ def run_constbn(case, drv):
                        key=key, tags=tags + ["err=2"])
         return bad("impl!=model", {"impl": str(impl)[:300], "model": str(model)[:300]}, key=key, tags=tags)
 
-    def parse(sname):
-        a, b = sname.rsplit("_", 1)
-        pool = STR_NAMES if case.get("style", "str") == "str" else [str(x) for x in INT_NAMES]
-        return [pool.index(a), int(b)]
-
-    iedges = sorted([parse(u), parse(v)] for u, v in bn.edges())
-    medges = sorted(model[1][0])
-    if iedges != medges:
-        return bad("impl!=model", {"edges_impl": iedges, "edges_model": medges}, key=key, tags=tags)
-    icp = []
-    for c in bn.cpds:
-        var = parse(c.variable)
-        pars = [parse(p) for p in c.variables[1:]]
-        nmz = [[state_code(case, v, lab) for lab in c.state_names[node]] for node, (v, _) in zip(c.variables, [var] + pars)]
-        icp.append({"var": var, "card": int(c.cardinality[0]), "pars": pars, "pcards": [int(x) for x in c.cardinality[1:]],
-                    "vals": [float(x) for x in c.values.ravel()], "names": nmz})
-    mcp = [cpd_from_model(w) for w in model[1][1]]
-    if len(icp) != len(mcp) or not all(same_cpd(a, b) for a, b in zip(icp, mcp)):
-        return bad("impl!=model", {"impl": str(icp)[:600], "model": str(mcp)[:600]}, key=key, tags=tags)
-    # property: the template's CPDs, unchanged (up to the slice offset)
-    src = [cpd_from_wire(wire_cpd(case, c, card)) for c in cpds]
-    for a, s0 in zip(icp, src):
-        expect = dict(s0, var=[s0["var"][0], s0["var"][1] + k], pars=[[u, x + k] for u, x in s0["pars"]])
-        if not same_meaning(dict(a, names=None), dict(expect, names=None)):
-            return bad("altered-cpd", {"impl": str(a)[:300], "expected": str(expect)[:300]}, key=key, tags=tags)
-        if a["names"] != expect["names"]:
-            return bad("labels", {"what": "get_constant_bn drops the state names", "var": a["var"]}, finding=F_NAMES,
-                       key=key, tags=tags + ["labels-dropped"])
+    o = _constbn_check(case, bn, model, cpds, card, k, key, tags)
+    if o is not None:
+        return o
     return ok(key=key, tags=tags + ["agree"])
 
 
@@ -895,10 +965,92 @@ def run_session(case, drv):
     return ok(key=key, tags=sorted(tags))
 
 
+def run_constbn_session(case, drv):
+    """get_constant_bn returns a network that belongs to the caller (DBN.fit fits it, users edit it): two calls give
+    independent objects, and after the caller mutated one, a later call still returns the template's network; its
+    VariableElimination marginals are those of the 2-slice unrolled network; simulate() still covers all nodes."""
+    import numpy as np
+    from pgmpy.factors.discrete import TabularCPD
+    t = case["t"]
+    n, card, k = t["n"], t["card"], case["k"]
+    key = template_key(case)
+    tags = ["constbn-session", "n=%d" % n, "k=%d" % k, "mutation=" + case["mutation"]]
+    cpds = list(t["cpds"])
+    dbn = build_dbn(case, t, cpds)
+    wire = [wire_cpd(case, c, card) for c in cpds]
+    model = drv.call_e("c17_constbn", [list(range(n)), edges_of(t), wire, k])
+    try:
+        bn1 = dbn.get_constant_bn(t_slice=k)
+    except ValueError as e:
+        if "CPD defined on variable not in the model" in str(e) and model == ("err", 2):
+            return ok(nontrivial=False, key=key, tags=tags + ["err=2"])  # class covered by the constbn stream
+        raise
+    if model[0] != "ok":
+        return bad("impl!=model", {"impl": "ok", "model": str(model)}, key=key, tags=tags)
+    o = _constbn_check(case, bn1, model, cpds, card, k, key, tags)
+    if o is not None:
+        return o
+    bn1b = dbn.get_constant_bn(t_slice=k)
+    if bn1b is bn1 or any(a is b for a in bn1.cpds for b in bn1b.cpds):
+        return bad("shared-object", {"what": "two get_constant_bn calls return the same network / CPD objects"},
+                   key=key, tags=tags)
+    # --- the caller edits ITS network
+    target = bn1.cpds[case["target"] % len(bn1.cpds)]
+    mut = case["mutation"]
+    if mut == "replace_cpd":
+        vals = np.array(target.get_values())
+        vals = vals[::-1].copy()  # reverse the rows: another distribution unless symmetric
+        ev_ = list(target.variables[1:])
+        bn1.add_cpds(TabularCPD(target.variable, int(target.cardinality[0]), vals, evidence=ev_ or None,
+                                evidence_card=[int(x) for x in target.cardinality[1:]] or None))
+    elif mut == "remove_node":
+        leaves = [x for x in bn1.nodes() if not list(bn1.successors(x))]
+        bn1.remove_node(sorted(leaves)[case["target"] % len(leaves)])
+    elif mut == "add_node":
+        bn1.add_node("extra_9")
+        bn1.add_edge(sorted(bn1.nodes())[0], "extra_9") if sorted(bn1.nodes())[0] != "extra_9" else None
+    elif mut == "remove_cpds":
+        bn1.remove_cpds(target)
+    else:
+        target.values[...] = np.roll(np.asarray(target.values), 1, axis=0)
+    # --- later calls still give the template's network
+    for kk in ([k] if k == 0 else [k, 0]):
+        mdl = model if kk == k else drv.call_e("c17_constbn", [list(range(n)), edges_of(t), wire, kk])
+        bn2 = dbn.get_constant_bn(t_slice=kk)
+        o = _constbn_check(case, bn2, mdl, cpds, card, kk, key, tags + ["after-mutation"])
+        if o is not None:
+            o["kind"] = "after-mutation:" + str(o["kind"])
+            return o
+        if kk == 0:
+            # the k = 0 constant network IS the network unrolled to T = 1
+            from pgmpy.inference import VariableElimination
+            pool = STR_NAMES if case.get("style", "str") == "str" else [str(x) for x in INT_NAMES]
+            v = case["target"] % n
+            got = [float(x) for x in VariableElimination(bn2).query(["%s_1" % pool[v]], show_progress=False).values]
+            want = unrolled_reference(t, 1, [v, 1], [], False)
+            if not vec_eq(got, want):
+                return bad("after-mutation:marginal", {"var": [v, 1], "constant_bn": got, "unrolled": want}, key=key, tags=tags)
+    if case.get("simulate"):
+        df = dbn.simulate(n_samples=3, n_time_slices=2, seed=0, show_progress=False)
+        spool = [str(x) for x in (STR_NAMES if case.get("style", "str") == "str" else INT_NAMES)]
+        cols = sorted([spool.index(str(c[0])), int(c[1])] for c in df.columns)
+        want = sorted([v, s] for v in range(n) for s in (0, 1))
+        if cols != want:
+            return bad("after-mutation:simulate", {"columns": cols, "expected": want}, key=key, tags=tags)
+        for c in df.columns:
+            v = spool.index(str(c[0]))
+            if not all(0 <= int(x) < card[v] for x in df[c]):
+                return bad("after-mutation:simulate", {"column": str(c), "values": [str(x) for x in df[c]]}, key=key, tags=tags)
+        tags.append("simulate")
+    return ok(key=key, tags=tags + ["agree"])
+
+
 def _run_case(case, drv):
     k = case["kind"]
     if k == "session":
         return run_session(case, drv)
+    if k == "constbn_session":
+        return run_constbn_session(case, drv)
     if k == "infer":
         return run_infer(case, drv)
     if k == "init":
